@@ -43,8 +43,32 @@ def peekv(k):
     return Agg("peek", None, None, None, (Const(k),))
 
 
+# digit generators written as a struct of the crate with its own Iterator impl (instead of iter::from_fn over a closure):
+# {adt path: {"next": path of its next(), "rem": index of the &mut BigInt field, "den": index of the other}}
+GEN_ADTS = {}
+
+
+def _as_int(v):
+    """A concrete integer value (K constant or machine constant), else None."""
+    if isinstance(v, K) and v.v.denominator == 1:
+        return int(v.v)
+    if isinstance(v, Const) and isinstance(v.v, int) and not isinstance(v.v, bool):
+        return v.v
+    return None
+
+
 def kind(v):
+    if isinstance(v, Agg) and v.kind == "adt" and v.path in GEN_ADTS:
+        return "gen"
     return v.kind if isinstance(v, Agg) else None
+
+
+def clos_view(v):
+    """The generator's (code, remainder ref, denominator ref) as a closure-like value: fields (rem, den), path = its code."""
+    if v.kind == "gen":
+        return v.field(0)
+    g = GEN_ADTS[v.path]
+    return Agg("closure", g["next"], None, None, (v.field(g["rem"]), v.field(g["den"])))
 
 
 class PrinterDomain(TermDomain):
@@ -135,6 +159,10 @@ class PrinterDomain(TermDomain):
             return [(args[0] if isinstance(args[0], Ref) else vals[0], store)]
         if name in ("std::mem::drop",):
             return [(UNIT, store)]
+        if getattr(self, "_own_next", None) == name:
+            # the generator struct's own next(), entered from iter_next: analyse its body
+            self._own_next = None
+            return None
         if name.endswith("as std::iter::Iterator>::next") or name == "std::iter::Iterator::next" \
                 or name == "std::iter::range::<impl std::iter::Iterator for std::ops::Range<A>>::next":
             r = self.iter_next(it, args[0], store)
@@ -179,6 +207,10 @@ class PrinterDomain(TermDomain):
         if c is not None and c[0] == "BigInt" and c[1] in ("div", "div_assign", "rem", "rem_assign") and len(vals) == 2:
             op = "idiv" if c[1].startswith("div") else "irem"
             r = T(op, vals[0], vals[1])
+            ka, kb = _as_int(vals[0]), _as_int(vals[1])
+            if ka is not None and kb not in (None, 0):
+                q = abs(ka) // abs(kb) * (1 if (ka >= 0) == (kb >= 0) else -1)
+                r = K(q if op == "idiv" else ka - q * kb)
             if c[1].endswith("_assign"):
                 return [(UNIT, it.write_ref(store, args[0], r))]
             return [(r, store)]
@@ -205,14 +237,29 @@ class PrinterDomain(TermDomain):
             return self.iter_next(it, v, store)
         k = kind(v)
         if k == "gen":
-            r = it.apply_closure(v.field(0), [], store, getattr(it, "_cur_depth", 0))
+            cv = clos_view(v)
+            if v.kind == "gen":
+                r = it.apply_closure(v.field(0), [], store, getattr(it, "_cur_depth", 0))
+            else:
+                # a generator struct: its own Iterator::next on the place that holds it
+                st0 = store
+                rr = ref
+                if not isinstance(rr, Ref):
+                    st0, rr = it.fresh_slot(store, v)
+                self._own_next = cv.path
+                try:
+                    r = it.call_named(cv.path, [rr], st0, getattr(it, "_cur_depth", 0), skip_std=True)
+                finally:
+                    self._own_next = None
             if r is None:
                 raise core.Undecided("generator closure without a body")
             outs = []
             for k_, val, s2 in it._norm(r):
                 # ghosts: the remainder after this pull, and the digits pulled so far
                 s3 = dict(s2)
-                s3[("rem_now",)] = it.read_ref(s2, v.field(0).field(0)) if isinstance(v.field(0), Agg) else TOP
+                s3[("rem_now",)] = it.read_ref(s2, cv.field(0)) if isinstance(cv, Agg) else TOP
+                if k_ == "ret" and isinstance(val, Agg) and val.vi == 1:
+                    s3[("rems",)] = s2.get(("rems",), ()) + (s3[("rem_now",)],)
                 if k_ == "ret" and isinstance(val, Agg) and val.vi == 1:
                     s3[("pulled",)] = s2.get(("pulled",), ()) + (val.field(0),)
                 outs.append((k_, val, s3))
@@ -337,10 +384,10 @@ def r1_generator(facts, rep, names):
         rep.ob("C08-R1", "generator:build", False, "undecided: %s" % e, body.site())
         return
     g = outs[0].value if len(outs) == 1 and outs[0].kind == "ret" else None
-    if not rep.ob("C08-R1", "generator:build", kind(g) == "gen" and isinstance(g.field(0), Agg) and g.field(0).kind == "closure",
-                  "%s returns std::iter::from_fn over a closure" % emit, body.site()):
+    if not rep.ob("C08-R1", "generator:build", kind(g) == "gen" and isinstance(clos_view(g), Agg) and clos_view(g).kind == "closure",
+                  "%s returns the digit generator (iter::from_fn over a closure, or a struct with its own Iterator impl)" % emit, body.site()):
         return
-    clos = g.field(0)
+    clos = clos_view(g)
     st1 = dict(outs[0].store)
     st1[(0, 702)] = g
     try:
@@ -455,6 +502,7 @@ class Harness:
         st[("pc",)] = tuple((extra or {}).get("pc", ()))
         st[("out",)] = ()
         st[("pulled",)] = ()
+        st[("rems",)] = ()
         st[("rem_now",)] = R
         for k, v in (extra or {}).items():
             if k != "pc":
@@ -506,7 +554,7 @@ def find_iters(it, st, frame=1, live=None):
         fr, l = key
         if live is not None and l not in live:
             continue
-        if fr == frame and isinstance(v, Agg) and (v.kind in ("gen", "take", "peek") or v.path == "std::ops::Range"):
+        if fr == frame and isinstance(v, Agg) and (kind(v) in ("gen", "take", "peek") or v.path == "std::ops::Range"):
             out.append((l, v))
     return sorted(out, key=lambda x: x[0])
 
@@ -521,7 +569,7 @@ def gen_of(v, it, st):
             v = v.field(0)
             continue
         break
-    return v.field(0) if kind(v) == "gen" else None
+    return clos_view(v) if kind(v) == "gen" else None
 
 
 def mark_check(seg, rem_now, bad, what="at the end", tail=None):
@@ -654,7 +702,11 @@ def r2_dispatch(facts, rep, names):
 
     def has_loop(p_):
         return any(facts.fn(q) is not None and loop_heads(facts.fn(q)) for q in cg.reachable([p_]) if facts.fn(q) is not None and "{closure" not in q)
-    no_inline = [n for n in local_callees if n != names.get("emit") and has_loop(n)]
+    def counts_digits(p_):
+        # a function from one big integer (by value or by reference) to a machine integer: the digit count, however written
+        b_ = facts.fn(p_)
+        return b_ is not None and b_.arg_count == 1 and "BigInt" in b_.local_ty(1) and b_.local_ty(0) in ("usize", "u32", "u64")
+    no_inline = [n for n in local_callees if n != names.get("emit") and (has_loop(n) or counts_digits(n))]
     h = Harness(facts, body, no_inline=no_inline)
     st0, selfref = display_self({})
     try:
@@ -770,7 +822,29 @@ def r2_dispatch(facts, rep, names):
     db = facts.fn(dig)
     hd = Harness(facts, db)
     badd = []
-    if len(hd.heads) != 1:
+    if len(hd.heads) == 0:
+        # no loop to do induction over (an iterator chain, a string length ...): the function is evaluated on concrete values
+        # around every power of ten up to 10^15 (constant propagation through its MIR), against the specified count
+        ws = sorted({w for k in range(0, 16) for w in (10 ** k - 1, 10 ** k, 10 ** k + 1) if w >= 0} | {12345, 987654321012})
+        n_ok = 0
+        for w in ws:
+            dom_ = PrinterDomain(facts)
+            it_ = core.Interp(facts, dom_, budget=40000)
+            st_, wref = it_.fresh_slot({}, K(w))
+            arg = wref if db.local_ty(1).startswith("&") else K(w)
+            try:
+                outs_ = it_.run(db, [arg], st_)
+            except core.Undecided as e:
+                badd.append("undecided at %d: %s" % (w, e))
+                break
+            got = {_as_int(o.value) if o.kind == "ret" else o.kind for o in outs_}
+            want = len(str(w)) - 1
+            if got != {want}:
+                badd.append("digits(%d) = %s; specified %d" % (w, sorted(map(str, got)), want))
+                break
+            n_ok += 1
+        rep.count("digits(): concrete values evaluated", n_ok)
+    elif len(hd.heads) != 1:
         badd.append("%d loops" % len(hd.heads))
     else:
         Hh = hd.heads[0]
@@ -1054,6 +1128,51 @@ def r5_small(facts, rep, names):
                 out.append((l, "?"))
         return tuple(out)
 
+    def budget_kind(sg):
+        """Where the digit budget lives at this stop: an unsigned counter, a Take adaptor over the generator, or nowhere yet
+        (then it is still the full `limit`)."""
+        flags, ints, uns, rng, gens, signs = state_of(sg)
+        if uns:
+            return ("local", uns[0])
+        takes = [l for l in gens if kind(h.it.read_ref(sg.store, Ref(sg.frame, l))) == "take"]
+        # the adaptor the loop itself drives (a moved-from copy may still be around)
+        var = h.variant_locals(sg.end) if sg.kind == "stop" else set()
+        strict = h.strict_live(sg.end) if sg.kind == "stop" else set()
+        takes.sort(key=lambda l: (l not in var, l not in strict, l))
+        if takes:
+            return ("take", takes[0])
+        return ("implicit",)
+
+    def read_budget(sg, renamed=False):
+        bk = budget_kind(sg)
+        if bk[0] == "local":
+            return h.it.read_ref(sg.store, Ref(sg.frame, bk[1]))
+        if bk[0] == "take":
+            return h.it.read_ref(sg.store, Ref(sg.frame, bk[1])).field(1)
+        return N if renamed else Sym("L")
+
+    def set_budget(st, sg):
+        """The store with the budget made arbitrary (N).  -> (store, renamed): an implicit budget is the limit itself, which is
+        then renamed to n everywhere (values and path condition)."""
+        bk = budget_kind(sg)
+        if bk[0] == "local":
+            st[(sg.frame, bk[1])] = N
+            return st, False
+        if bk[0] == "take":
+            v_ = h.it.read_ref(st, Ref(sg.frame, bk[1]))
+            st[(sg.frame, bk[1])] = take(v_.field(0), N)
+            return st, False
+        ren = {"L": N}
+        st2 = {}
+        for k_, v_ in st.items():
+            if k_ == ("pc",):
+                st2[k_] = tuple((subst(p_, ren), b_) for p_, b_ in v_)
+            elif isinstance(k_, tuple) and len(k_) == 2 and isinstance(k_[0], int):
+                st2[k_] = subst(v_, ren)
+            else:
+                st2[k_] = v_
+        return st2, True
+
     first = entry[0]
     # the sign: the boolean that equals (x < 0) on every way into the form
     for l in sorted(h.live_at(first.end)):
@@ -1065,16 +1184,16 @@ def r5_small(facts, rep, names):
     flags0, ints0, uns0, rng0, gens0, signs0 = state_of(first)
     # drop-flag style constants that never change are not state
     flags0 = {l: v for l, v in flags0.items() if l in h.variant_locals(first.end)}
-    okk = len(ints0) == 1 and len(uns0) == 1 and len(gens0) >= 1
+    okk = len(ints0) == 1 and len(uns0) <= 1 and len(gens0) >= 1
     if not rep.ob("C08-R5", "anchor:state", okk, "state at the first loop by type: flags %s, exponent %s, budget %s, generator %s" % (
-            sorted(flags0), ints0, uns0, gens0), body.site()):
+            sorted(flags0), ints0, budget_kind(first), gens0), body.site()):
         return
     F0 = first.frame
     clos = gen_of(h.it.read_ref(first.store, Ref(F0, gens0[0])), h.it, first.store)
     rem_ref = clos.field(0)
     den0 = h.it.read_ref(first.store, clos.field(1))
     rem0 = h.it.read_ref(first.store, rem_ref)
-    e0, n0_ = h.it.read_ref(first.store, Ref(F0, ints0[0])), h.it.read_ref(first.store, Ref(F0, uns0[0]))
+    e0, n0_ = h.it.read_ref(first.store, Ref(F0, ints0[0])), read_budget(first)
     init_ok = e0 == Const(-1) and n0_ == Sym("L") and same(rem0, X_REM, GRID_X) and same(den0, X_ABS_D, GRID_X)
     rep.ob("C08-R5", "entry", init_ok, "at the first turn: exponent %r (specified -1), budget %r (specified limit), generator over (%r, %r) (specified remainder, den)" % (
         e0, n0_, rem0, den0), body.site())
@@ -1109,12 +1228,71 @@ def r5_small(facts, rep, names):
         return len(got) == len(want) and all(g[0] == w[0] and (same(g[1], w[1]) if g[0] == "val" else g[1] == w[1]) for g, w in zip(got, want))
 
     # work items: (representative segment, flag key, phase, pending expected atoms after a padding loop, is-padding)
+    ARRIVAL = {}
     reps = {}
     work = []
 
-    def push(sg, phase, pending=(), e_known_zero=False):
+    def limit_facts(sg):
+        """With the budget still implicit (= limit, untouched), what the path knows about the limit alone stays true."""
+        if budget_kind(sg)[0] != "implicit":
+            return ()
+        out = []
+        for p_, b_ in pc_of(sg.store):
+            names_ = set()
+
+            def syms(t_):
+                if isinstance(t_, Sym):
+                    names_.add(t_.name)
+                elif isinstance(t_, T):
+                    for a_ in t_.args:
+                        syms(a_)
+            syms(p_)
+            if names_ and names_ <= {"L", "n"}:
+                out.append((p_, b_))
+        uniq = {}
+        for p_, b_ in out:
+            uniq.setdefault((repr(p_), b_), (p_, b_))
+        return tuple(uniq[k_] for k_ in sorted(uniq))
+
+    def replace_term(t_, old_, new_):
+        if t_ == old_:
+            return new_
+        if isinstance(t_, T):
+            return T(t_.op, *[replace_term(a_, old_, new_) for a_ in t_.args])
+        return t_
+
+    def arrival_facts(sg, renamed_):
+        """What the arriving path knows about the budget and the remainder *as they are now*: the work item makes both
+        arbitrary (n, R), and facts about exactly these two values stay true of the arbitrary ones (e.g. `the budget is
+        used up` or `the expansion has ended` after a failed extra pull)."""
+        if sg.kind != "stop":
+            return ()
+        cur_n = read_budget(sg, renamed_)
+        cur_r = h.it.read_ref(sg.store, rem_ref)
+        out = []
+        for p_, b_ in pc_of(sg.store):
+            q_ = replace_term(replace_term(p_, cur_r, Sym("R'")), cur_n, Sym("n'"))
+            names_ = set()
+
+            def syms(t_):
+                if isinstance(t_, Sym):
+                    names_.add(t_.name)
+                elif isinstance(t_, T):
+                    for a_ in t_.args:
+                        syms(a_)
+            syms(q_)
+            if names_ and names_ <= {"R'", "n'"}:
+                out.append((subst(q_, {"R'": R, "n'": N}), b_))
+        uniq = {}
+        for p_, b_ in out:
+            uniq.setdefault((repr(p_), b_), (p_, b_))
+        return tuple(uniq[k_] for k_ in sorted(uniq))
+
+    def push(sg, phase, pending=(), e_known_zero=False, renamed_=False):
         flags, ints, uns, rng, gens, signs = state_of(sg)
-        key = (sg.end, fkey(flags), phase, tuple(map(repr, pending)), bool(rng))
+        af = arrival_facts(sg, renamed_)
+        key = (sg.end, fkey(flags), phase, tuple(map(repr, pending)), bool(rng), tuple((repr(p_), b_) for p_, b_ in limit_facts(sg)) + tuple((repr(p_), b_) for p_, b_ in af))
+        ARRIVAL[key] = af
         if key not in reps:
             reps[key] = (sg, pending)
             work.append(key)
@@ -1131,9 +1309,13 @@ def r5_small(facts, rep, names):
             continue
         done.add(key)
         if len(done) > 60:
+            import os as _os
+            if _os.environ.get("C08_DEBUG"):
+                for k_ in sorted(done, key=repr)[:70]:
+                    print("KEY", k_[0][1], k_[1], k_[2], k_[4], [x[0][:60] + "=" + str(x[1]) for x in k_[5]])
             rep.ob("C08-R5", "bisimulation", False, "more than 60 (loop, code state, phase) triples: the code states do not correspond to the reference phases")
             return
-        H, fk, phase, _, is_pad = key
+        H, fk, phase, _, is_pad, _lf = key
         sg0, pending = reps[key]
         phases_seen.add(phase[4:] if phase.startswith("PAD>") else phase)
         flags, ints, uns, rng, gens, signs = state_of(sg0)
@@ -1141,8 +1323,8 @@ def r5_small(facts, rep, names):
         st = dict(sg0.store)
         for l in ints[:1]:
             st[(F, l)] = E
-        for l in uns[:1]:
-            st[(F, l)] = N
+        lfacts = limit_facts(sg0)
+        st, renamed = set_budget(st, sg0)
         for l in signs:
             st[(F, l)] = Sym("neg")
         st = h.it.write_ref(st, rem_ref, R)
@@ -1154,6 +1336,11 @@ def r5_small(facts, rep, names):
             extra = {"pc": phase_pc("LEAD")}
         else:
             extra = {"pc": phase_pc(phase)}
+        if renamed and lfacts:
+            extra = {"pc": tuple(extra["pc"]) + tuple((subst(p_, {"L": N}), b_) for p_, b_ in lfacts)}
+        if ARRIVAL.get(key):
+            have = {(repr(p_), b_) for p_, b_ in extra["pc"]}
+            extra = {"pc": tuple(extra["pc"]) + tuple(x_ for x_ in ARRIVAL[key] if (repr(x_[0]), x_[1]) not in have)}
         if is_pad:
             rl = rng[0]
             rv = h.it.read_ref(st, Ref(F, rl))
@@ -1193,50 +1380,68 @@ def r5_small(facts, rep, names):
                 nphase = post or phase
                 want_e, want_n = (K(0) if nphase == "PLAIN" else E), N
             else:
-                if len(pulled) > 1:
-                    bad.append("a segment pulls %d digits" % len(pulled))
-                    continue
                 want = []
                 nphase = phase
                 want_e, want_n = E, N
-                if pulled:
-                    d = pulled[0]
-                    if n_pos is not True or z is not False or not same(d, Q):
-                        bad.append("a digit is pulled without n > 0 and R != 0 having been tested (path %s)" % s_.pc)
-                        continue
-                    if not same(rem_now, REM1):
-                        bad.append("after the pull the remainder is %r" % (rem_now,))
+                rems = s_.store.get(("rems",), ())
+                r_spec, r_term = R, R      # the remainder before the next pull: as specified / as the store writes it
+                broken = False
+                for i_, d in enumerate(pulled):
+                    q_spec = T("idiv", T("*", r_spec, K(10)), D)
+                    # (after i_ digits that each needed a positive budget the grid starts at n = consumed so far)
+                    npos_i = n_pos if i_ == 0 else find_pred(s_, T("Gt", want_n, Const(0)), [g_ for g_ in GRID_N if g_["n"] >= i_])
+                    z_i = z if i_ == 0 else s_.pc.get(repr(T("is_zero", r_term)))
+                    if npos_i is not True or z_i is not False or not same(d, q_spec):
+                        bad.append("digit %d of the segment is pulled without n > 0 and R != 0 having been tested (path %s)" % (i_ + 1, s_.pc))
+                        broken = True
+                        break
+                    rem_after = rems[i_] if i_ < len(rems) else rem_now
+                    if not same(rem_after, T("-", T("*", r_spec, K(10)), T("*", D, q_spec))):
+                        bad.append("after pull %d the remainder is %r" % (i_ + 1, rem_after))
                     dz = None
                     for p_, b_ in pc_of(s_.store):
-                        if isinstance(p_, T) and p_.op == "is_zero" and same(p_.args[0], Q):
+                        if isinstance(p_, T) and p_.op == "is_zero" and same(p_.args[0], q_spec):
                             dz = b_
+                    if dz is None:
+                        # the same test written as a comparison with 0 (`Some(0) => ..`, `d == 0`)
+                        dz = find_pred(s_, T("Eq", q_spec, Const(0)), GRID_NZ)
                     dig = ("val", d)
-                    if phase == "LEAD":
+                    if nphase == "LEAD":
                         if dz is True:
                             kinds.add("lead-zero")
-                            want, want_e, want_n, nphase = [], T("-", E, K(1)), N, "LEAD"
+                            want_e = T("-", want_e, K(1))
                         elif dz is False:
+                            if want_e != E:
+                                bad.append("undecided: a first significant digit follows a leading zero within one segment")
+                                broken = True
+                                break
                             sp, sp_ok = sci_pred(s_)
                             if not sp_ok or sp is None:
                                 bad.append("the scientific form is chosen by a test that is not -e >= exponent_limit (path %s)" % s_.pc)
-                                continue
+                                broken = True
+                                break
                             if s_.pc.get("neg") is None:
                                 bad.append("the first significant digit is printed without the sign having been consulted")
                             if sp:
                                 kinds.add("lead-sci")
-                                want, want_e, want_n, nphase = sign + [dig], E, T("-", N, K(1)), "SCI1"
+                                want, want_n, nphase = want + sign + [dig], T("-", want_n, K(1)), "SCI1"
                             else:
                                 kinds.add("lead-plain")
-                                want, want_e, want_n, nphase = sign + [("lit", "0."), ("PAD",), dig], K(0), T("-", N, K(1)), "PLAIN"
+                                want, want_e, want_n, nphase = want + sign + [("lit", "0."), ("PAD",), dig], K(0), T("-", want_n, K(1)), "PLAIN"
                         else:
                             bad.append("before the first significant digit a digit is used without being tested for zero")
-                            continue
-                    elif phase == "SCI1":
+                            broken = True
+                            break
+                    elif nphase == "SCI1":
                         kinds.add("sci1")
-                        want, want_n, nphase = [("lit", "."), dig], T("-", N, K(1)), "SCI2"
+                        want, want_n, nphase = want + [("lit", "."), dig], T("-", want_n, K(1)), "SCI2"
                     else:
-                        kinds.add(phase.lower())
-                        want, want_n = [dig], T("-", N, K(1))
+                        kinds.add(nphase.lower())
+                        want, want_n = want + [dig], T("-", want_n, K(1))
+                    r_spec = T("-", T("*", r_spec, K(10)), T("*", D, q_spec))
+                    r_term = rem_after
+                if broken:
+                    continue
             # where does the segment end?
             if s_.kind == "stop":
                 nflags, nints, nuns, nrng, ngens, nsigns = state_of(s_)
@@ -1248,7 +1453,7 @@ def r5_small(facts, rep, names):
                     rv = h.it.read_ref(s_.store, Ref(s_.frame, nrng[0]))
                     if not (same(rv.field(0), E, GRID_EE) and rv.field(1) == Const(-1)):
                         bad.append("the zero padding runs over %r..%r; specified e..-1" % (rv.field(0), rv.field(1)))
-                    push(s_, "PAD>" + nphase, tuple(want[k + 1:]))
+                    push(s_, "PAD>" + nphase, tuple(want[k + 1:]), renamed_=renamed)
                     continue
                 want_clean = [a for a in want if a != ("PAD",)]
                 if ("PAD",) in want and not nrng:
@@ -1257,14 +1462,16 @@ def r5_small(facts, rep, names):
                     bad.append("%s: the segment prints %s; specified %s" % (phase, describe_out(merge(out)), describe_out(merge(want_clean))))
                 if True:
                     e2 = h.it.read_ref(s_.store, Ref(s_.frame, nints[0])) if nints else None
-                    n2 = h.it.read_ref(s_.store, Ref(s_.frame, nuns[0])) if nuns else None
+                    n2 = read_budget(s_, renamed)
                     if e2 is not None and not (same(e2, want_e, GRID_EE) or (nphase == "PLAIN" and e2 == Const(0))):
                         bad.append("%s: the exponent becomes %r; specified %r" % (phase, e2, want_e))
-                    if n2 is not None and not same(n2, want_n, GRID_N):
+                    # once the expansion has ended no digit can come any more: what is left of the budget does not matter
+                    ended = s_.pc.get(repr(T("is_zero", rem_now if pulled else R))) is True
+                    if n2 is not None and not ended and not same(n2, want_n, GRID_N):
                         bad.append("%s: the budget becomes %r; specified %r" % (phase, n2, want_n))
                 if pulled and rem_now != h.it.read_ref(s_.store, rem_ref):
                     bad.append("the remainder is written outside the generator")
-                push(s_, nphase)
+                push(s_, nphase, renamed_=renamed)
             elif s_.kind == "ret":
                 # the segment ends the function: whatever it still owes, then the epilogue
                 if pulled or (is_pad and pending):
@@ -1673,5 +1880,32 @@ def discover(facts, rep):
                 work.append(nm)
             if nm == "std::iter::from_fn":
                 names["emit"] = p
+        # ... or a function returning a struct of the crate that is an iterator over (remainder, denominator)
+        rty = b.local_ty(0).split("<")[0]
+        adt = facts.adt(rty)
+        nxt = facts.iterator_impl(rty) if adt is not None else None
+        if nxt and not adt["is_enum"] and p != FMT:
+            fs = adt["variants"][0]["fields"]
+            rem = [i for i, f in enumerate(fs) if f["ty"].replace(" ", "").startswith("&'amut") or f["ty"].startswith("&mut") or "mut num" in f["ty"]]
+            den = [i for i, f in enumerate(fs) if i not in rem and "BigInt" in f["ty"]]
+            if len(fs) == 2 and len(rem) == 1 and len(den) == 1:
+                GEN_ADTS[rty] = {"next": nxt, "rem": rem[0], "den": den[0]}
+                names["emit"] = p
     names["reachable"] = sorted(seen)
     return names
+
+
+def generator_code_paths(facts):
+    """Paths of the code that is the digit generator's step: the closure(s) of the function that builds it with
+    iter::from_fn, or the next() of a generator struct."""
+    from .. import report as _report
+    names = discover(facts, _report.Report("C08", "quick"))
+    out = set()
+    if names and names.get("emit"):
+        e = names["emit"]
+        out |= {b.path for b in facts.all if b.promoted < 0 and b.path.startswith(e + "::{closure")}
+        rty = facts.fn(e).local_ty(0).split("<")[0]
+        if rty in GEN_ADTS:
+            out.add(GEN_ADTS[rty]["next"])
+    return out
+
